@@ -277,3 +277,13 @@ def run(ctx):
             ctx.case(distinct_key=("key", ki, q["op"], mm))
     ctx.extra["hostile_states"] = states
     ctx.extra["modes"] = modes
+    if not ctx.quick:
+        from .. import san
+        work = ctx.new_dir("san")
+        n = 0
+        for v in ("astd", "tok"):
+            n += san.asan(ctx, v, lambda c: san.writer_script(rng, c, 600, 300000), work, f"programs-{v}")
+        n += san.memcheck(ctx, "tok", lambda c: san.writer_script(rng, c, 250, MIB), work, "programs-mmap")
+        for shard in range(3):
+            n += san.miri(ctx, "miri-tok", lambda c: san.writer_script(rng, c, 25, 20000), work, f"programs-miri{shard}")
+        ctx.extra["sanitizer_replay_ops"] = n
